@@ -107,6 +107,12 @@ type reqSpec struct {
 	// the handler REPLACES the exported Store.W (a wrapper writer with status 201 over the same Origin) and/or Store.P
 	// (a copy of the current Params) and leaves them there, as a middleware might
 	replaceW, replaceP bool
+	// RE-ENTRANT use of the Mux from inside the handler:
+	nested    *reqSpec // nested dispatch: the handler calls mux.ServeHTTP(store.W, r2) for this other request (key nestedK)
+	nestedK   int
+	auxNested bool   // ... or dispatches to a second, unobserved Mux with its store.W
+	regInside *route // the handler registers this route on the Mux that is serving it
+	holdLate  bool   // forced overlap: wait AFTER the request's own writes instead of before them
 	// forced overlap: the handler signals entered and waits for release before it goes on
 	entered, release chan struct{}
 	once             *sync.Once
@@ -166,6 +172,8 @@ type world struct {
 	// HandleNoRoute / HandleRelay may be called again between requests: every call installs a handler of a new
 	// GENERATION; a request must run the newest ones (and see the newest no-route RouteInfo in Store.I)
 	nrGen, relayGen int
+	inner           []served   // requests served by nested dispatch, in the order they finished
+	aux             *httpd.Mux // the second Mux of nested dispatch
 }
 
 func newWorld(log bool) *world {
@@ -173,6 +181,8 @@ func newWorld(log bool) *world {
 	w.lg = logger.New(logger.NewNanoHandler(io.Discard, logger.NewOptions(slog.LevelInfo, false, false)))
 	w.installNoRoute()
 	w.installRelay()
+	w.aux = httpd.NewMux()
+	w.aux.Handle("/aux/:n", "GET", func(s *httpd.Store) { s.W.WriteHeader(202) })
 	return w
 }
 
@@ -252,7 +262,7 @@ func (w *world) handlerGen(idx int, gen int) httpd.HandlerFunc {
 		o.own = o.look.status
 		o.ptr = uintptr(unsafe.Pointer(s))
 		w.event(append([]string{"B", strconv.Itoa(c.k), hk.Hxs(c.spec.path), hk.Hxs(c.spec.meth)}, o.look.fields()...)...)
-		if c.spec.entered != nil {
+		if c.spec.entered != nil && !c.spec.holdLate {
 			c.spec.signalEntered()
 			<-c.spec.release
 		}
@@ -285,6 +295,31 @@ func (w *world) handlerGen(idx int, gen int) httpd.HandlerFunc {
 		if c.spec.flush == 2 {
 			s.W.Flush()
 			noted()
+		}
+		if c.spec.regInside != nil { // Handle called by a handler on the Mux that is serving it (events R / Q, in place)
+			w.register(*c.spec.regInside)
+		}
+		if c.spec.nested != nil { // nested dispatch with the Store's own writer: an internal redirect
+			n := len(w.atts)
+			ic, esc := w.serveW(s.W, c.spec.nestedK, c.spec.nested)
+			w.mu.Lock()
+			w.inner = append(w.inner, served{k: c.spec.nestedK, spec: *c.spec.nested, nroutes: n, o: ic.o, escaped: esc})
+			w.mu.Unlock()
+			noted() // what the inner request wrote went through this request's writer
+		}
+		if c.spec.auxNested { // ... or to a mounted second Mux
+			func() {
+				defer func() { recover() }()
+				w.aux.ServeHTTP(s.W, &http.Request{Method: "GET", URL: &url.URL{Path: "/aux/1"}, RequestURI: "/aux/1", Header: http.Header{}, RemoteAddr: "10.0.0.1:1"})
+			}()
+			noted()
+		}
+		if c.spec.entered != nil && c.spec.holdLate {
+			c.spec.signalEntered()
+			<-c.spec.release
+			if st := s.W.Status; st != o.own {
+				o.foreign = fmt.Sprintf("W.Status went from %d to %d while the request was held in flight after its own writes", o.own, st)
+			}
 		}
 		o.ownExit = o.own
 		o.exit = w.read(s, idx, c.staleNR)
@@ -347,11 +382,33 @@ func (w *world) register(r route) (ok bool) {
 
 // serve: runs one request; escaped reports a panic leaving ServeHTTP
 func (w *world) serve(k int, q *reqSpec) (c *reqCtx, escaped bool) {
+	return w.serveW(httptest.NewRecorder(), k, q)
+}
+
+// serveWatched: for requests whose handler calls back into the Mux (Handle); a handler that never returns is an outcome
+func (w *world) serveWatched(k int, q *reqSpec) (c *reqCtx, escaped, hung bool) {
+	type res struct {
+		c   *reqCtx
+		esc bool
+	}
+	done := make(chan res, 1)
+	go func() {
+		c, esc := w.serve(k, q)
+		done <- res{c, esc}
+	}()
+	select {
+	case r := <-done:
+		return r.c, r.esc, false
+	case <-time.After(3 * time.Second):
+		return &reqCtx{k: k, spec: q}, false, true
+	}
+}
+
+func (w *world) serveW(rec http.ResponseWriter, k int, q *reqSpec) (c *reqCtx, escaped bool) {
 	r := &http.Request{Method: q.meth, URL: &url.URL{Path: q.path}, RequestURI: q.path, Header: http.Header{}, RemoteAddr: "10.0.0.1:1"}
 	c = &reqCtx{k: k, spec: q, wantNR: w.nrGen, wantRelay: w.relayGen}
 	w.ctxs.Store(r, c)
 	defer w.ctxs.Delete(r)
-	rec := httptest.NewRecorder()
 	func() {
 		defer func() {
 			if recover() != nil {
@@ -407,6 +464,7 @@ func (h *history) line() string {
 
 // oracle: the same request on a fresh Mux with the routes registered so far
 func (h *history) judge(e *hk.Env, st *stats) {
+	h.served = append(h.served, h.w.inner...) // the requests served by nested dispatch are requests like the others
 	ids := map[string]int{}
 	for _, s := range h.served {
 		bad := func(what string) {
@@ -513,9 +571,9 @@ func (h *history) judge(e *hk.Env, st *stats) {
 }
 
 type stats struct {
-	histories, requests, events, matched, noroute, recovered, escaped, withValues, distinctStores, violations int
-	escapeDiffers, flushes, rehandled, idOnlyRequests, rejectedRegs, replacedW, replacedP                     int
-	lateMoreParams, overlapForced                                                                             int
+	histories, requests, events, matched, noroute, recovered, escaped, withValues, distinctStores, violations                     int
+	escapeDiffers, flushes, rehandled, idOnlyRequests, rejectedRegs, replacedW, replacedP, nestedDispatch, regInsideHandler, hung int
+	lateMoreParams, overlapForced                                                                                                 int
 }
 
 // ---------------------------------------------------------------------------------------------------------------
@@ -717,6 +775,48 @@ func overlapHistory(e *hk.Env, r *hk.Rng, st *stats) {
 		h.w.register(rt)
 	}
 	k := 0
+	reentrant := r.Chance(50)
+	if reentrant {
+		// RE-ENTRANT use first: handlers that dispatch again with their own writer (same Mux / a second Mux) and a handler
+		// that registers a route on the Mux serving it; then the overlapping plain requests below look at what that left
+		for j := 0; j < 2+r.Intn(4); j++ {
+			q := genRequest(r, h.w.routes)
+			if r.Chance(70) {
+				in := genRequest(r, h.w.routes)
+				in.behave = bRet
+				q.nested, q.nestedK = &in, k+1
+			} else {
+				q.auxNested = true
+			}
+			c, esc := h.w.serve(k, &q)
+			h.served = append(h.served, served{k: k, spec: q, nroutes: len(h.w.atts), o: c.o, escaped: esc})
+			k += 2
+			st.nestedDispatch++
+		}
+		if r.Chance(60) && st.hung < 2 { // two stuck handlers are enough to report
+			late := route{"/late" + strconv.Itoa(r.Intn(3)) + "/:" + paramPool[r.Intn(len(paramPool))], "GET"}
+			q := genRequest(r, h.w.routes)
+			q.behave = bRet
+			q.regInside = &late
+			n := len(h.w.atts)
+			c, esc, hung := h.w.serveWatched(k, &q)
+			if hung {
+				e.Case("VIOL", "handler-never-returned:", fmt.Sprintf("a_handler_that_calls_mux.Handle(%q,%q)_on_the_Mux_serving_it_did_not_return_within_3s_(path_%q)", late.pat, late.meth, q.path))
+				st.violations++
+				st.hung++
+				return // the goroutine is stuck inside the Mux: nothing more can be learnt from this history
+			}
+			h.served = append(h.served, served{k: k, spec: q, nroutes: n, o: c.o, escaped: esc})
+			k++
+			st.regInsideHandler++
+			for _, p := range []string{late.pat[:6] + "/7", late.pat[:6] + "/8/9", late.pat[:6]} {
+				q2 := reqSpec{path: p, meth: "GET"}
+				c, esc := h.w.serve(k, &q2)
+				h.served = append(h.served, served{k: k, spec: q2, nroutes: len(h.w.atts), o: c.o, escaped: esc})
+				k++
+			}
+		}
+	}
 	rounds := 1 + r.Intn(4)
 	for round := 0; round < rounds; round++ {
 		depth := 1 + r.Intn(3)
@@ -729,6 +829,7 @@ func overlapHistory(e *hk.Env, r *hk.Rng, st *stats) {
 		for d := 0; d < depth; d++ {
 			q := genRequest(r, h.w.routes)
 			q.entered, q.release, q.once = make(chan struct{}), make(chan struct{}), new(sync.Once)
+			q.holdLate = r.Chance(50)
 			hd := held{q: &q, done: make(chan served, 1), k: k}
 			k++
 			n := len(h.w.atts)
@@ -942,6 +1043,8 @@ func run(e *hk.Env) error {
 	e.Stats["id_only_history_requests_on_one_mux"] = st.idOnlyRequests
 	e.Stats["handler_panic_propagation_differs_from_relay_kind_(informational)"] = st.escapeDiffers
 	e.Stats["requests_with_Flush"] = st.flushes
+	e.Stats["requests_whose_handler_dispatched_again_with_its_own_writer"] = st.nestedDispatch
+	e.Stats["requests_whose_handler_registered_a_route_on_its_own_mux"] = st.regInsideHandler
 	e.Stats["registrations_rejected_by_Handle_and_recovered"] = st.rejectedRegs
 	e.Stats["requests_whose_handler_replaced_Store_W"] = st.replacedW
 	e.Stats["requests_whose_handler_replaced_Store_P"] = st.replacedP
